@@ -24,10 +24,48 @@ STORE_W = ['Writer::add_item', 'Writer::append_item', 'Writer::del_item', 'Write
 STORE_R = ['Reader::open', 'Reader::dimensions', 'Reader::n_trees', 'Reader::n_items', 'Reader::item_ids', 'Reader::index',
            'Reader::contains_item', 'Reader::item_vector', 'Reader::iter', 'Reader::is_empty', 'ItemIter::next', 'item_leaf', 'QueryBuilder::by_vector', 'QueryBuilder::by_item']
 
+BQ_QUICK = ['bq_from_slice_len_1', 'bq_from_slice_len_63', 'bq_from_slice_len_64', 'bq_from_slice_len_65', 'bq_unpack_8_bytes',
+            'bq_roundtrip_len_3', 'bq_from_bytes_size_check']
+BQ_MORE = ['bq_from_slice_len_2', 'bq_from_slice_len_7', 'bq_from_slice_len_8', 'bq_from_slice_len_9', 'bq_from_slice_len_31', 'bq_from_slice_len_33',
+           'bq_from_slice_len_127', 'bq_from_slice_len_128', 'bq_from_slice_len_129', 'bq_unpack_16_bytes', 'bq_to_vec_non_optimized_8_bytes', 'bq_roundtrip_len_40']
+NODE_ID = ['node_id_to_bytes_contract', 'node_id_roundtrip_via_contract', 'node_id_from_bytes_reference_layout', 'node_mode_try_from_all_codes']
+
 PROPS = {
+    'C04': {
+        'kani': {'quick': [('distance_side', ['side_follows_margin_sign', 'pq_distance_prefers_the_margin_side', 'pq_distance_from_root'])]},
+        'static': ['no_override_side_pq'],
+        'not_decided': ['placement clauses of insert_items_in_file / make_tree_in_file and the reader push order are decided by the build-chain / reader units where claimed',
+                        'margin(normal, q) = margin(q, normal) (IEEE commutativity of multiplication and identical summation order of the kernels) is assumed',
+                        'ties d <= -margin fall back to node-id order'],
+    },
+    'C07': {
+        'verus': {'store': KEYS + ['Writer::add_item', 'Writer::append_item', 'Writer::del_item', 'Writer::clear']},
+        'kani': {'quick': [('key_layout', KEY_LAYOUT_ALL)]},
+        'not_decided': [],
+    },
+    'C12': {
+        'kani': {'quick': [('bq_codec', BQ_QUICK), ('bq_distance', ['bq_euclidean_is_4h_8_bytes', 'bq_dot_product_is_n_minus_2h_8_bytes']), ('bq_manhattan', ['bq_manhattan_is_2h_8_bytes'])],
+                 'thorough': [('bq_codec', BQ_MORE), ('bq_distance', ['bq_euclidean_is_4h_16_bytes'])]},
+        'trusted': ['lengths proved: sign packing 1, 63, 64, 65 (quick) + 2, 7, 8, 9, 31, 33, 127, 128, 129 (thorough), contents fully symbolic; other lengths are NOT claimed',
+                    'the SSE unpacking path to_vec_sse (intrinsics) is not verified; the plain iterator and to_vec_non_optimized are',
+                    'NEON code is not compiled on this host'],
+        'not_decided': ['cosine: h / (64*ceil(d/64)) needs sqrt on floats (not decided); the xor/popcount dot product it is computed from is proved',
+                        'generalisation of the packing proof to every d <= 300'],
+    },
+    'C16': {
+        'kani': {'quick': [('key_layout', KEY_LAYOUT_ALL), ('node_id_codec', NODE_ID), ('version_codec', ['version_encode_is_reference_layout', 'version_decode_reads_reference_layout']),
+                           ('node_codec', ['leaf_encode_is_reference_layout_len2', 'split_encode_is_reference_layout_len1', 'node_tags_are_reference_values']),
+                           ('f32_codec', ['f32_from_slice_roundtrip_is_bit_exact', 'f32_from_vec_is_bit_exact', 'f32_from_bytes_size_check']),
+                           ('distance_side', ['metric_names_are_reference_strings'])]},
+        'trusted': ['node value layouts are proved for concrete vector lengths (leaf: 2 floats, split normal: 1 float) with symbolic contents'],
+        'not_decided': ['golden fixtures written by a reference binary (none exists in the sandbox)', 'MetadataCodec byte layout and the roaring serialisation format',
+                        'NodeCodec::bytes_decode of leaf / split values (CBMC does not finish on the boxed-error path); its parts NodeId::from_bytes, the tags and the vector size checks are proved'],
+    },
     'C05': {
         'verus': {'store': KEYS + STORE_W, 'reader_open': KEYS + STORE_R},
-        'kani': {'quick': [('key_layout', ['key_byte_order_is_tuple_order', 'prefix_selects_exactly_its_index_and_kind'])]},
+        'kani': {'quick': [('key_layout', ['key_byte_order_is_tuple_order', 'prefix_selects_exactly_its_index_and_kind']),
+                           ('f32_codec', ['f32_from_slice_roundtrip_is_bit_exact', 'f32_from_vec_is_bit_exact']),
+                           ('bq_codec', ['bq_roundtrip_len_3', 'bq_from_slice_len_65'])]},
         'not_decided': [],
     },
     'C06': {
